@@ -102,4 +102,79 @@ Open Scope Z_scope.
         ],
         "examples": [],
     },
+    "C01": {
+        "title": "Homogeneous media: traveltime equals distance over velocity - the exact-arithmetic mechanisms (model: gen/Fteik2d.v, gen/Fteik3d.v).  The global tolerances are examined on the implementation by the oracle.",
+        "header": HDR_R.format(imports="From FT.proofs Require Import Sweep2dProofs OperatorsR.\nFrom FT.proofs Require Operators3R."),
+        "theorems": [
+            ("t_ana_is_distance_times_slowness", "OperatorsR.t_ana_exact", "the analytic seed: slowness x Euclidean distance from node (i,j) to the source at (zsa,xsa) in grid units, with per-axis spacings"),
+            ("t_anad_is_its_gradient", "OperatorsR.t_anad_is_gradient", "its derivatives are the analytic gradient"),
+            ("spherical_operator_exact", "OperatorsR.delta_spherical_exact", "the spherical operator returns the analytic time when its neighbours carry the analytic time (zero perturbations) and the sweep looks away from the source"),
+            ("sweep_near_source_exact", "OperatorsR.sweep_spherical_homogeneous", "inside the 5-cell box one update with exact upwind values writes min(old, 1D candidates, analytic time)"),
+            ("four_point_exact_on_plane_wave", "OperatorsR.four_point_exact_on_plane_wave", "far from the source: the 4-point operator is exact on a plane wave, any per-axis spacing"),
+            ("three_point_exact_on_plane_wave", "OperatorsR.three_point_e_exact_on_plane_wave", "the 3-point operator is exact on a plane wave"),
+            ("sweep_far_field_plane_wave", "OperatorsR.sweep_four_point_plane_wave", "the generated sweep, outside the box, applies exactly that operator to the upwind values"),
+            ("t_ana_3d", "Operators3R.t_ana_exact", "3D analytic seed"),
+            ("op3_exact_on_plane_wave", "Operators3R.op3_exact_on_plane_wave", "the 3D operator is exact on every plane wave with non-negative direction cosines"),
+            ("sweep3d_plane_wave", "Operators3R.sweep_op3_plane_wave", "the generated 3D sweep applies it"),
+        ],
+        "examples": [],
+    },
+    "C05": {
+        "title": "Unit invariance: times scale linearly with slowness and with length - exact arithmetic over the generated kernels",
+        "header": HDR_R.format(imports="From FT.proofs Require Import Sweep2dProofs OperatorsR.\nFrom FT.proofs Require Operators3R."),
+        "theorems": [
+            ("t_ana_scale_slowness", "OperatorsR.t_ana_scale_slowness", "analytic seed: slowness scaling"),
+            ("t_ana_scale_length", "OperatorsR.t_ana_scale_length", "analytic seed: length scaling (source position in grid units is unchanged)"),
+            ("t_anad_scale_slowness", "OperatorsR.t_anad_scale_slowness", "seed and derivatives under slowness scaling"),
+            ("t_anad_scale_length", "OperatorsR.t_anad_scale_length", "under length scaling the time scales and the derivative components are unchanged"),
+            ("delta_scale_slowness", "OperatorsR.delta_scale_slowness", "local quadratic solver: homogeneous of degree one in slowness"),
+            ("delta_scale_length", "OperatorsR.delta_scale_length", "and in length (inverse lengths scale by 1/c, inverse squares by 1/c^2) - this is the statement the off-node initialisation violated before fix 9faba2f"),
+            ("sweep_scale_slowness", "OperatorsR.sweep_scale_slowness", "one node update commutes with slowness scaling, as long as the values involved stay below the absolute placeholder Big in both unit systems (hypotheses Hbig, Hbig': finding F10/F11)"),
+            ("sweep_scale_length", "OperatorsR.sweep_scale_length_dargs", "one node update commutes with length scaling (same caveat)"),
+            ("t_ana_3d_scale_slowness", "Operators3R.t_ana_scale_slowness", "3D seed"),
+            ("t_ana_3d_scale_length", "Operators3R.t_ana_scale_length", "3D seed"),
+        ],
+        "examples": [],
+    },
+    "C18": {
+        "title": "No axis is privileged: the local operators and the interpolators are symmetric under relabelling axes (exact arithmetic)",
+        "header": HDR_R.format(imports="From FT.proofs Require Import SSR InterpR Interp3R Sweep2dProofs OperatorsR.\nFrom FT.proofs Require Operators3R."),
+        "theorems": [
+            ("t_ana_swap", "OperatorsR.t_ana_swap", "analytic seed: exchanging the roles of Z and X"),
+            ("delta_swap", "OperatorsR.delta_swap", "local quadratic solver"),
+            ("four_point_swap", "OperatorsR.four_point_swap", "4-point operator"),
+            ("three_point_swap", "OperatorsR.three_point_swap", "the two 3-point operators are exchanged"),
+            ("plane_operator_selection_swap", "OperatorsR.plane_t2d_swap", "the whole far-field operator selection (the order of the two 3-point tests is immaterial)"),
+            ("spherical_operator_selection_swap", "OperatorsR.spherical_t2d_swap", "the near-source operator selection"),
+            ("t_ana_3d_swap_zx", "Operators3R.t_ana_swap_zx", "3D seed: transposition Z<->X"),
+            ("t_ana_3d_swap_zy", "Operators3R.t_ana_swap_zy", "3D seed: Z<->Y"),
+            ("t_ana_3d_swap_xy", "Operators3R.t_ana_swap_xy", "3D seed: X<->Y"),
+            ("interp2d_axis_swap", "InterpR.interp2d_axis_swap", "bilinear interpolation is equivariant under relabelling"),
+            ("interp3d_axis_swap_xy", "Interp3R.interp3d_axis_swap", "trilinear: first two axes"),
+            ("interp3d_axis_swap_yz", "Interp3R.interp3d_axis_swap_yz", "trilinear: last two axes"),
+        ],
+        "examples": [],
+    },
+    "C08": {
+        "title": "List (parallel) calls equal single calls: in the generated model every parallel loop is the map of the per-item kernel over the items, in input order (every numeric instance). The runtime (threads, chunks, backend, concurrent callers) is observed by the oracle.",
+        "header": """From Coq Require Import ZArith List Bool.
+From FT.lib Require Import Num Arr ArrLemmas NumArr.
+From FT.gen Require Import Common Interp2d Interp3d Vinterp2d Vinterp3d Fteik2d Fteik3d.
+From FT.proofs Require Import VectorizedProofs.
+Import ListNotations.
+Open Scope Z_scope.
+""",
+        "theorems": [
+            ("interp2d_list_is_map", "VectorizedProofs.interp2d_vectorized_is_map", "model evaluation at a list of points = map of the single evaluations"),
+            ("interp3d_list_is_map", "VectorizedProofs.interp3d_vectorized_is_map", "3D"),
+            ("vinterp2d_list_is_map", "VectorizedProofs.vinterp2d_vectorized_is_map", "traveltime evaluation at a list of points"),
+            ("vinterp3d_list_is_map", "VectorizedProofs.vinterp3d_vectorized_is_map", "3D"),
+            ("dispatch_single", "VectorizedProofs.interp2d_dispatch_single", "a 1-D argument takes the scalar path"),
+            ("dispatch_list", "VectorizedProofs.interp2d_dispatch_list", "a 2-D argument takes the list path on its columns"),
+            ("solve2d_list_spec", "VectorizedProofs.fteik2d_vectorized_spec", "list solve = validation of every source, then the single solver mapped over the sources in order"),
+            ("solve2d_list_is_map_of_singles", "VectorizedProofs.solve2d_list_is_map_of_singles", "if every single solve returns, the list solve returns exactly their results (traveltimes, gradients, source-cell slowness), in input order"),
+            ("solve3d_list_is_map_of_singles", "VectorizedProofs.solve3d_list_is_map_of_singles", "3D"),
+        ],
+        "examples": [],
+    },
 }
